@@ -46,19 +46,21 @@ QuoteK(k) == R.any.costK[k]
 DeltaK(k) == R.fitAfter[k] - R.fitBefore[k]
 QuoteJudged == R.any.ok /\ R.applied
 \* the quote equals the model's value of the change ...
-QuoteUnassigned == QuoteJudged => QuoteK(IF R.goal = "A" THEN 1 ELSE 2) = 0 - 1000
-QuoteTours == (QuoteJudged /\ R.goal = "A") => QuoteK(2) = 1000 * (I_FitTours(After) - I_FitTours(R.tour))
-QuoteDistance == (QuoteJudged /\ R.goal = "A" /\ R.single) =>
+\* goal E = [unassigned, maximize-tours (fitness = minus the number of tours), distance]: goal A with the sign of the tours layer turned
+GA == R.goal \in {"A", "E"}
+QuoteUnassigned == QuoteJudged => QuoteK(IF GA THEN 1 ELSE 2) = 0 - 1000
+QuoteTours == (QuoteJudged /\ GA) => QuoteK(2) = (IF R.goal = "E" THEN 0 - 1000 ELSE 1000) * (I_FitTours(After) - I_FitTours(R.tour))
+QuoteDistance == (QuoteJudged /\ GA /\ R.single) =>
    QuoteK(3) = 1000 * I_QuoteDistance(W, R.tour, X(R.any.acts[1]), R.any.acts[1].idx)
 QuoteValue == (QuoteJudged /\ R.goal = "B") => QuoteK(1) = 1000 * (I_FitValue(W, After) - I_FitValue(W, R.tour))
 \* ... and the change the code itself measures after really inserting (cheapest recreate inserts at a minimal-cost position,
 \* so the realised change equals the quote layer by layer for the additive layers)
-DeltaUnassigned == QuoteJudged => DeltaK(IF R.goal = "A" THEN 1 ELSE 2) = QuoteK(IF R.goal = "A" THEN 1 ELSE 2)
-DeltaTours == (QuoteJudged /\ R.goal = "A") => DeltaK(2) = QuoteK(2)
-DeltaDistance == (QuoteJudged /\ R.goal = "A") => DeltaK(3) = QuoteK(3)
+DeltaUnassigned == QuoteJudged => DeltaK(IF GA THEN 1 ELSE 2) = QuoteK(IF GA THEN 1 ELSE 2)
+DeltaTours == (QuoteJudged /\ GA) => DeltaK(2) = QuoteK(2)
+DeltaDistance == (QuoteJudged /\ GA) => DeltaK(3) = QuoteK(3)
 DeltaValue == (QuoteJudged /\ R.goal = "B") => DeltaK(1) = QuoteK(1)
 \* model side of the fitness: the code's fitness after equals the model's objective values of the tour after
-FitDistanceModel == (R.applied /\ R.goal = "A") => R.fitAfter[3] = 1000 * I_TourDistance(W, After)
+FitDistanceModel == (R.applied /\ GA) => R.fitAfter[3] = 1000 * I_TourDistance(W, After)
 FitCostModel == (R.applied /\ R.goal = "B") => R.fitAfter[3] = 1000 * I_FitCost(W, After)
 \* combined cost objective: "the same equality holds whenever the tour contains no waiting time before and after"
 DeltaCostNoWaiting == (QuoteJudged /\ R.goal = "B" /\ I_NoWaiting(W, R.tour) /\ I_NoWaiting(W, After)) => DeltaK(3) = QuoteK(3)
